@@ -358,13 +358,19 @@ def _all_missing_over_empty(d):
             return len(n["tags"])
         raise HarnessError("length of " + c)
 
-    def walk(n):
+    def walk(n, masked=False):
+        """masked: to_arrow carries an option node's mask down to this node (through unions, records, indexed nodes; a list starts afresh)"""
         c = n["class"]
         if c in ("IndexedOptionArray32", "IndexedOptionArray64", "ByteMaskedArray", "BitMaskedArray") and length(n["content"]) == 0:
             return True
-        if "content" in n and walk(n["content"]):
+        # a non-option IndexedArray over zero-length content below an option takes the same route (pyarrow.array([None] * n).cast(type))
+        if masked and c in ("IndexedArray32", "IndexedArrayU32", "IndexedArray64") and length(n["content"]) == 0:
             return True
-        return any(walk(x) for x in n.get("contents", []))
+        below = (masked or c in ("IndexedOptionArray32", "IndexedOptionArray64", "ByteMaskedArray", "BitMaskedArray")) and not (
+            c.startswith(("ListArray", "ListOffsetArray")) or c == "RegularArray")
+        if "content" in n and walk(n["content"], below):
+            return True
+        return any(walk(x, below) for x in n.get("contents", []))
     return walk(d)
 
 
